@@ -40,8 +40,14 @@ func TestC44_Round(t *testing.T) {
 		for g := range copies {
 			copies[g] = copies[g][:0]
 			for i := 0; i < nBlocks; i++ {
-				// ranks are not in hash order so that rank- and weight-sorted orders differ from insertion order
-				b := vBlock(vHash(i), (i*3+1)%nBlocks)
+				// ranks are not in hash order so that rank- and weight-sorted orders differ from insertion order; a
+				// copy ranked after the round's seed changed (timeout, SetRandomSeedForNotarizedBlock) carries
+				// another rank than a copy of the same block ranked before
+				rank := (i*3 + 1) % nBlocks
+				if g%2 == 1 {
+					rank = (rank + 2) % nBlocks
+				}
+				b := vBlock(vHash(i), rank)
 				b.Round = 7
 				b.MinerID = miners[i%nMiners].GetKey()
 				b.VerificationTickets = []*block.VerificationTicket{ticket(i + g), ticket(i + g + 1)}
@@ -149,7 +155,6 @@ var c44roundKnown = []c44kit.KnownPair{
 	// Round.GetNotarizedBlocks returns r.notarizedBlocks without taking r.mutex
 	{Key: "round-notarized-blocks-read-without-lock", A: "GetNotarizedBlocks+walk", B: "AddNotarizedBlock"},
 	{Key: "round-notarized-blocks-read-without-lock", A: "GetNotarizedBlocks+walk", B: "Restart"},
-	{Key: "round-notarized-blocks-read-without-lock", A: "GetNotarizedBlocks+walk", B: "GetBestRankedNotarizedBlock"},
 	// GetProposedBlocks hands out the live slice, add/replace/sort happen in place; the GetBestRanked* getters
 	// sort the shared slice while holding only the read lock
 	{Key: "round-live-block-slices", A: "GetProposedBlocks+walk", B: "AddNotarizedBlock"},
@@ -157,10 +162,6 @@ var c44roundKnown = []c44kit.KnownPair{
 	{Key: "round-live-block-slices", A: "GetProposedBlocks+walk", B: "GetBestRankedProposedBlock"},
 	{Key: "round-live-block-slices", A: "GetBestRankedProposedBlock", B: "GetBestRankedProposedBlock"},
 	{Key: "round-live-block-slices", A: "GetBestRankedProposedBlock", B: "Clone"},
-	{Key: "round-live-block-slices", A: "GetBestRankedNotarizedBlock", B: "GetBestRankedNotarizedBlock"},
-	{Key: "round-live-block-slices", A: "GetBestRankedNotarizedBlock", B: "GetHeaviestNotarizedBlock"},
-	{Key: "round-live-block-slices", A: "GetBestRankedNotarizedBlock", B: "Finalize"},
-	{Key: "round-live-block-slices", A: "GetBestRankedNotarizedBlock", B: "Clone"},
 	// Round.Clone copies RandomSeed / the timeout counter without the atomics / mutex that guard them
 	{Key: "round-clone-unguarded-fields", A: "Clone", B: "SetTimeoutCount"},
 	{Key: "round-clone-unguarded-fields", A: "Clone", B: "SetRandomSeedForNotarizedBlock"},
